@@ -8,4 +8,6 @@ import (
 
 func itemPtr(i *gkvlite.Item) uintptr { return uintptr(unsafe.Pointer(i)) }
 
-func modelCompare(rep *Report, prop string) {}
+func modelCompare(rep *Report, prop string) {
+	rep.Extra["model_steps_compared"] = modelSteps
+}
